@@ -614,7 +614,7 @@ func nestedGroups(depth int, num protowire.Number, inner []byte) []byte {
 	return b
 }
 
-func checkUnknown(c *C, b []byte, useModel bool) {
+func checkUnknown(c *C, b []byte, useModel bool, light bool) {
 	in := unkInput{Op: "unk", B: vh.Hex(b)}
 	if len(b) > 4096 {
 		in.B = fmt.Sprintf("nested:%d", len(b))
@@ -644,6 +644,10 @@ func checkUnknown(c *C, b []byte, useModel bool) {
 		if useModel && c.HasModel() {
 			c.Compare("marshalUnknown", in, vh.Hex(out), c.Ask("unknown %s %d", vh.Hex(b), b2i(ascii)))
 		}
+		if light {
+			c.Case("u|"+string(b), len(b) > 0)
+			return
+		}
 	}
 	_ = prototext.Format(m)
 	_, err := prototext.MarshalOptions{EmitUnknown: true, Multiline: true}.Marshal(m)
@@ -654,6 +658,47 @@ func checkUnknown(c *C, b []byte, useModel bool) {
 	t.OptionalNestedMessage.ProtoReflect().SetUnknown(b)
 	_ = prototext.Format(t)
 	c.Case("u|"+string(b), len(b) > 0)
+}
+
+// checkMalformedUnknown damages a valid set and compares only model and implementation: both must agree on
+// "renders" (same bytes) versus "panics" (marshalUnknown assumes proper encoding; nothing is claimed here).
+func checkMalformedUnknown(c *C, valid []byte) {
+	if !c.HasModel() || len(valid) == 0 || len(valid) > 300 {
+		return
+	}
+	b := append([]byte{}, valid...)
+	switch c.Rand.Intn(4) {
+	case 0:
+		b = b[:c.Rand.Intn(len(b))]
+	case 1:
+		b[c.Rand.Intn(len(b))] ^= byte(1 << uint(c.Rand.Intn(8)))
+	case 2:
+		i := c.Rand.Intn(len(b))
+		b = append(b[:i], b[i+1:]...)
+	default:
+		b = append(b, []byte{0x0c, 0x04, 0x07, 0x00, 0x80}[c.Rand.Intn(5)])
+	}
+	in := unkInput{Op: "unkmal", B: vh.Hex(b)}
+	impl := func() (res string) {
+		defer func() {
+			if recover() != nil {
+				res = "panic"
+			}
+		}()
+		m := &emptypb.Empty{}
+		m.ProtoReflect().SetUnknown(b)
+		out, err := prototext.MarshalOptions{EmitUnknown: true}.Marshal(m)
+		if err != nil {
+			return "error"
+		}
+		return vh.Hex(out)
+	}()
+	c.Compare("marshalUnknown on a damaged set (renders vs panics)", in, impl, c.Ask("unknown %s 0", vh.Hex(b)))
+	if impl == "panic" {
+		c.Hist("unkmal:panic")
+	} else {
+		c.Hist("unkmal:renders")
+	}
 }
 
 // ---------------------------------------------------------------- driver
@@ -690,7 +735,19 @@ func runC25(c *C) {
 		case "unk":
 			var in unkInput
 			if json.Unmarshal(raw, &in) == nil && !strings.HasPrefix(in.B, "nested:") {
-				checkUnknown(c, vh.UnHex(in.B), true)
+				checkUnknown(c, vh.UnHex(in.B), true, false)
+			}
+		case "unkmal":
+			var in unkInput
+			if json.Unmarshal(raw, &in) == nil && c.HasModel() {
+				b := vh.UnHex(in.B)
+				func() {
+					defer func() { recover() }()
+					m := &emptypb.Empty{}
+					m.ProtoReflect().SetUnknown(b)
+					out, _ := prototext.MarshalOptions{EmitUnknown: true}.Marshal(m)
+					c.Compare("marshalUnknown on a damaged set (renders vs panics)", in, vh.Hex(out), c.Ask("unknown %s 0", in.B))
+				}()
 			}
 		}
 	}
@@ -819,25 +876,26 @@ func runC25(c *C) {
 	c.Hist("phase:literals-done")
 	phase("literals")
 	// 8. EmitUnknown
-	checkUnknown(c, nil, true)
+	checkUnknown(c, nil, true, false)
 	for _, d := range []int{1, 2, 3, 10, 100} {
-		checkUnknown(c, nestedGroups(d, 1, nil), true)
-		checkUnknown(c, nestedGroups(d, 1<<29-1, []byte{0x08, 0x01}), true)
+		checkUnknown(c, nestedGroups(d, 1, nil), true, false)
+		checkUnknown(c, nestedGroups(d, 1<<29-1, []byte{0x08, 0x01}), true, false)
 	}
-	for _, d := range []int{1000, protowire.DefaultRecursionLimit, protowire.DefaultRecursionLimit + 1} {
-		if d > 1000 && !c.Thorough() {
-			// the deep ones cost ~1 s each in the implementation (ConsumeGroup rescans at every level)
-			continue
-		}
-		checkUnknown(c, nestedGroups(d, 1, nil), false)
+	// deepest nesting protowire accepts (DefaultRecursionLimit+1 levels). One render costs ~1 s in the implementation
+	// (ConsumeGroup rescans the remaining input at every level), so the quick tier renders once.
+	checkUnknown(c, nestedGroups(1000, 1, nil), false, false)
+	checkUnknown(c, nestedGroups(protowire.DefaultRecursionLimit+1, 3, []byte{0x08, 0x01}), false, !c.Thorough())
+	if c.Thorough() {
+		checkUnknown(c, nestedGroups(protowire.DefaultRecursionLimit, 1, nil), false, false)
 	}
-	phase("unknown-fixed")
-	checkUnknown(c, nestedGroups(protowire.DefaultRecursionLimit+1, 3, []byte{0x08, 0x01}), false)
 	phase("unknown-deep")
 	for i := 0; i < c.N(6000, 300000) && !c.Failed(); i++ {
 		maxNum := int32(math.MaxInt32)
 		b := genUnknown(c, c.Rand.Intn(6), c.Rand.Intn(5), maxNum)
-		checkUnknown(c, b, len(b) <= 600)
+		checkUnknown(c, b, len(b) <= 600, false)
+		if i%3 == 0 {
+			checkMalformedUnknown(c, b)
+		}
 	}
 	phase("unknown")
 	// the same generator restricted to numbers proto.Unmarshal accepts: Unmarshal must agree that the set is valid
